@@ -1,5 +1,5 @@
 (* Proofs about Model/ConfigModel.v against Spec/ConfigSpec.v *)
-From Coq Require Import ZArith List Bool QArith Lia Arith ZifyBool.
+From Coq Require Import ZArith List Bool Lia Arith ZifyBool.
 From HV Require Import Gen.GenConfig Gen.GenConfigTime Gen.GenConfigMain Spec.ConfigSpec Model.ConfigModel.
 Import ListNotations.
 Open Scope Z_scope.
@@ -219,21 +219,4 @@ Proof.
   intros deflt file cli ns dd l.
   destruct file, ns, dd; cbn; intros H;
     repeat (destruct H as [<-|H]; [reflexivity|]); destruct H.
-Qed.
-
-(* ====================================================================== codecs ========= *)
-
-(* ---- ParseTimeout: the round trip fails (the code truncates) ---- *)
-Lemma timeout_roundtrip_refuted :
-  exists v : Q, (0 <= v)%Q /\ ~ faithful_rendering timeout_parse (timeout_unparse v) v.
-Proof.
-  exists (3 # 2)%Q. split; [unfold Qle; cbn; lia|].
-  intros (w & H & E). vm_compute in H. injection H as <-. vm_compute in E. discriminate.
-Qed.
-
-Lemma timeout_roundtrip_refuted_submilli :
-  exists v : Q, (0 <= v)%Q /\ (v < 1)%Q /\ ~ faithful_rendering timeout_parse (timeout_unparse v) v.
-Proof.
-  exists (1 # 2000)%Q. split; [unfold Qle; cbn; lia|]. split; [unfold Qlt; cbn; lia|].
-  intros (w & H & E). vm_compute in H. injection H as <-. vm_compute in E. discriminate.
 Qed.
